@@ -10,16 +10,22 @@
    (2) states are left in the order of the exit list and that list is deepest first; the entry path is outermost first;
    (3) the exit set is confined to active proper descendants of the transition domain - and to the target's own
        region when the domain is parallel; internal / targetless transitions run their actions only.
-   REFUTED at HEAD: 'a state is never entered while already active' (finding F21, history child of a parallel state
-   targeted from inside it) - kernel-checked witness below.
-   PARTIAL: the +1/0/-1 accounting over whole processed events is decided by the monitor on the implementation and by
-   the correspondence; timer / service non-interference for siblings follows from (3) only for what is cancelled. *)
-From XSM Require Import Model.Macro Proofs.PhaseP Proofs.LegalP Proofs.SortP Proofs.StepP.
+   (4) exactly-once accounting (Proofs/AccountP.v): the OLeave records of a successful external transition are exactly
+       its exit list and its OEnter records exactly the `entered` set of its entry path(s); out of a legal configuration,
+       for a target that is neither the root nor a history pseudo-state, both lists are duplicate-free, only active states
+       are left, a state that is entered was not active or has just been left (never entered while active), and a state is
+       active afterwards iff it (was active and was not left) or was entered: entries - exits = change in activity.
+   Former finding F21 ('entered while active': the history child of a parallel state targeted from inside it) is repaired
+   in /repo; the witness machine is kept below as a positive example.
+   PARTIAL: (4) is proved per transition; for history targets the accounting is decided by the monitor on the
+   implementation and by the correspondence; timer / service non-interference for siblings follows from (3) only for
+   what is cancelled. *)
+From XSM Require Import Model.Macro Proofs.PhaseP Proofs.LegalP Proofs.SortP Proofs.StepP Proofs.DescentP Proofs.EffectP Proofs.AccountP.
 From Coq Require Import Sorting.Sorted.
 
 Theorem C03_phases_and_event_identity : forall eng pr m t tgt ev s0 s1,
   let d := find_domain m (t_src t) tgt in
-  let xs := exit_set m (s_cfg s0) d tgt in
+  let xs := exit_set_h m (s_cfg s0) (s_hist s0) d tgt in
   let hist := is_history m tgt in
   let hts := if hist then resolve_history m (s_hist s0) tgt else [] in
   let path := if hist then [] else path_to m tgt d in
@@ -53,14 +59,49 @@ Proof. exact entry_path_outermost_first. Qed.
 Print Assumptions C03_entry_path_outermost_first.
 
 (* frame: what can be exited *)
-Theorem C03_exit_confined : forall m C d tgt x,
-  In x (exit_set m C d tgt) -> In x C /\ is_desc m x d = true /\ x <> d.
-Proof. exact exit_set_sub. Qed.
+Theorem C03_exit_confined : forall m C H d tgt x,
+  In x (exit_set_h m C H d tgt) -> In x C /\ is_desc m x d = true /\ x <> d.
+Proof. exact exit_set_h_sub. Qed.
 Print Assumptions C03_exit_confined.
-Theorem C03_sibling_regions_untouched : forall m C d tgt b x,
-  is_parallel m d = true -> branch_of m d tgt = Some b -> In x (exit_set m C d tgt) -> is_desc m x b = true.
-Proof. exact exit_set_parallel_scoped. Qed.
+Theorem C03_sibling_regions_untouched : forall m C H d tgt b x,
+  is_history m tgt = false ->
+  is_parallel m d = true -> branch_of m d tgt = Some b -> In x (exit_set_h m C H d tgt) -> is_desc m x b = true.
+Proof. intros m C H d tgt b x Hh. rewrite (exit_set_h_plain m C H d tgt Hh). exact (exit_set_parallel_scoped m C d tgt b x). Qed.
 Print Assumptions C03_sibling_regions_untouched.
+(* a history target: the regions exited are those holding a state the pseudo-state resolves to, i.e. about to be entered *)
+Theorem C03_sibling_regions_untouched_history : forall m C H d tgt x,
+  is_history m tgt = true -> is_parallel m d = true -> In x (exit_set_h m C H d tgt) ->
+  exists y b, In y (resolve_history m H tgt) /\ branch_of m d y = Some b /\ is_desc m x b = true.
+Proof. exact exit_set_h_scoped. Qed.
+Print Assumptions C03_sibling_regions_untouched_history.
+
+(* exactly-once accounting: what the log of one successful external transition contains ... *)
+Theorem C03_transition_log : forall m eng pr t tgt ev s0 s1,
+  NoDup (s_cfg s0) ->
+  exec_external eng pr m t tgt ev s0 = (s1, None) ->
+  let d := find_domain m (t_src t) tgt in
+  let xs := rev (sort_by (lt_depth_id m) (exit_set_h m (s_cfg s0) (s_hist s0) d tgt)) in
+  let hist := is_history m tgt in
+  let path := if hist then [] else path_to m tgt d in
+  let cp := if hist then combined_path m d (resolve_history m (s_hist s0) tgt) else [] in
+  exists seg, s_log s1 = seg ++ s_log s0
+    /\ leaves_of seg = xs
+    /\ enters_of seg = entered (S (size m)) m path ++ entered (S (size m)) m cp.
+Proof. exact external_log. Qed.
+Print Assumptions C03_transition_log.
+
+(* ... and out of a legal configuration every state is left at most once, entered at most once, never entered while
+   active, and (entries - exits) is exactly its change in activity *)
+Theorem C03_exactly_once_accounting : forall m, wf m = true -> good_initials m = true -> forall eng pr t tgt ev s0 s1,
+  Legal m (s_cfg s0) -> In (t_src t) (s_cfg s0) -> tgt < size m -> tgt <> 0 -> is_history m tgt = false ->
+  exec_external eng pr m t tgt ev s0 = (s1, None) ->
+  exists seg, s_log s1 = seg ++ s_log s0
+    /\ NoDup (leaves_of seg) /\ NoDup (enters_of seg)
+    /\ (forall x, In x (leaves_of seg) -> In x (s_cfg s0))
+    /\ (forall x, In x (enters_of seg) -> In x (s_cfg s0) -> In x (leaves_of seg))
+    /\ (forall x, In x (s_cfg s1) <-> (In x (s_cfg s0) /\ ~ In x (leaves_of seg)) \/ In x (enters_of seg)).
+Proof. exact external_accounting. Qed.
+Print Assumptions C03_exactly_once_accounting.
 
 (* internal / targetless transitions run actions only: configuration and history untouched *)
 Theorem C03_internal_actions_only : forall eng pr m t ev s,
@@ -73,25 +114,24 @@ Proof.
 Qed.
 Print Assumptions C03_internal_actions_only.
 
-(* REFUTED at HEAD (finding F21): parallel machine {a (entry 1, exit 2; H -> #m.h; OUT -> reenter a), h: history}.
-   After OUT has recorded history, H enters a again while it is active: OEnter 1 with no OLeave 1 before it. *)
+(* the machine of former finding F21 (repaired in /repo by the fix that also closes F34, see known_findings.json): parallel
+   machine {a (entry 1, exit 2; H -> #m.h; OUT -> reenter a), h: history}.  After OUT has recorded history, H used to
+   enter a again while it was active (OEnter 1 with no OLeave 1 before it); now a is exited first.  The log is newest first. *)
 Definition f21 : machine := Build_machine
   [ Build_node "m" None KParallel [1; 2] None 0 [] [] [] None [] [] None None;
     Build_node "m.a" (Some 0) KAtomic [] None 1 [AMark 1] [AMark 2]
       [("H"%string, [Build_trans 0 1 "H" (TState 2) None [] false false]);
        ("OUT"%string, [Build_trans 1 1 "OUT" (TState 1) None [] true false])] None [] [] None None;
     Build_node "m.h" (Some 0) (KHistory false) [] None 1 [] [] [] None [] [] None None ] 10 None.
-Theorem C03_enter_once_refuted :
+Example C03_history_target_exits_before_reentry :
   wf f21 = true /\
   let s0 := fst (sync_start f21 (st_init [])) in
   let s1 := fst (sync_send f21 (Build_event "OUT" EPlain 0) s0) in
   let s2 := fst (sync_send f21 (Build_event "H" EPlain 0) (with_log [] s1)) in
-  mem 1 (s_cfg s1) = true /\ In (OEnter 1) (s_log s2) /\ ~ In (OLeave 1) (s_log s2).
-Proof.
-  vm_compute. split; [reflexivity|]. split; [reflexivity|]. split; [auto 20|].
-  intros H. repeat (destruct H as [H|H]; [discriminate|]). exact H.
-Qed.
-Print Assumptions C03_enter_once_refuted.
+  mem 1 (s_cfg s1) = true /\
+  filter (fun o => match o with OEnter _ | OLeave _ => true | _ => false end) (s_log s2) = [OEnter 1; OLeave 1] /\
+  s_cfg s2 = [0; 1].
+Proof. vm_compute. repeat split; reflexivity. Qed.
 
 (* non-vacuity: a transition out of a parallel state; exits deepest first, entry after, one event throughout *)
 Definition n_ id par k ch ini d en ex on_ : node := Build_node id par k ch ini d en ex on_ None [] [] None None.
@@ -112,3 +152,7 @@ Example C03_ex :
   [OLeave 5; OAct 6 "GO" 1; OLeave 3; OAct 4 "GO" 1; OLeave 4; OAct 3 "GO" 1; OLeave 2; OAct 2 "GO" 1; OLeave 1;
    OAct 9 "GO" 1; OEnter 6; OAct 5 "GO" 1].
 Proof. vm_compute. split; reflexivity. Qed.
+(* ... and the hypotheses of the accounting theorem hold of it *)
+Example C03_ex_accounting_premises :
+  wf ex_m = true /\ good_initials ex_m = true /\ legal ex_m [0; 1; 2; 3; 4; 5] = true /\ is_history ex_m 6 = false.
+Proof. vm_compute. repeat split; reflexivity. Qed.
